@@ -185,6 +185,9 @@ fn verif_c11_path() {
 //        a per-chunk validator never compares them). Expected: DuplicateBytes before the protocol starts, so
 //        the case is fast on a correct tree; anything else within 75 s (`accepted`, `timeout:…`) is the failing
 //        outcome accepted-or-not-rejected.
+//        -> `<verdict as c11.e2e> sent=<records sent> prss=<PRSS values drawn>`: everything the three helpers sent /
+//        drew (all gates) between the call of `Query::execute` and the rejection; with one shard the resharding
+//        step sends nothing, so "fails the query BEFORE attribution starts" = `rejected:on-picker-shard sent=0 prss=0`
 //   c11.uneven <n> <p> <own> <copies> <fill>          (suite c11_uneven, b17)
 //        UNEVEN sharding: the shard that OWNS the duplicated tag holds almost nothing of its own. n shards; one
 //        encrypted report D is chosen whose tag is routed to shard p on all three helpers (`shard_picker(tag) = p`,
@@ -349,6 +352,15 @@ pub mod c11_e2e {
         format!("rejected:{}", if routing_ok { "on-picker-shard" } else { "elsewhere" })
     }
 
+    /// (records sent, PRSS values drawn — indexed and sequential) recorded on THIS thread so far, all gates
+    fn protocol_traffic() -> (u64, u64) {
+        use crate::telemetry::metrics::{INDEXED_PRSS_GENERATED, RECORDS_SENT, SEQUENTIAL_PRSS_GENERATED};
+        ipa_metrics::MetricsCurrentThreadContext::store(|store| {
+            let sum = |name: &'static str| -> u64 { store.counters().filter(|(n, _)| n.key == name).map(|(_, v)| v).sum() };
+            (sum(RECORDS_SENT), sum(INDEXED_PRSS_GENERATED) + sum(SEQUENTIAL_PRSS_GENERATED))
+        })
+    }
+
     pub fn exec(req: &str) -> String {
         let t: Vec<&str> = req.split(' ').collect();
         if t[0] == "c11.big" {
@@ -357,8 +369,23 @@ pub mod c11_e2e {
             let j: usize = t[3].parse().unwrap();
             assert!(i < j && j < count);
             let list: Vec<usize> = (0..count).map(|k| if k == j { i } else { k }).collect();
-            // report `j` itself is never submitted, but `run_n` creates reports 0..=max index
-            return block_on_timeout(300, run_n::<1>(vec![list], 75)).unwrap_or_else(|e| e);
+            // report `j` itself is never submitted, but `run_n` creates reports 0..=max index.
+            // "Before attribution starts" is OBSERVED: the three helpers run on ONE dedicated thread (current-thread
+            // runtime), so the thread-local metric store sees every record any of them sends and every PRSS value any
+            // of them draws between the call of `Query::execute` and its rejection. With one shard per helper the
+            // resharding step sends nothing, so on a correct tree both counts are exactly zero.
+            let h = std::thread::spawn(move || {
+                let rt = tokio::runtime::Builder::new_current_thread().enable_all().build().unwrap();
+                rt.block_on(async move {
+                    let before = protocol_traffic();
+                    let r = tokio::time::timeout(Duration::from_secs(300), run_n::<1>(vec![list], 75)).await.unwrap_or_else(|_| "timeout".to_string());
+                    let after = protocol_traffic();
+                    format!("{r} sent={} prss={}", after.0 - before.0, after.1 - before.1)
+                })
+            });
+            return h.join().unwrap_or_else(|e| {
+                format!("panic:{}", e.downcast_ref::<String>().cloned().or_else(|| e.downcast_ref::<&str>().map(|s| (*s).to_string())).unwrap_or_default())
+            });
         }
         assert_eq!(t[0], "c11.e2e");
         let n: usize = t[1].parse().unwrap();
@@ -521,13 +548,18 @@ pub mod c11_e2e {
         v.push("c11.big 4097 0 4096".to_string());
         // both copies beyond the first 4096 tags
         v.push("c11.big 4099 4097 4098".to_string());
+        // just above a smaller power of two: the later copy at tag position 1024 / the earlier one there as well
+        v.push("c11.big 1030 0 1024".to_string());
+        v.push("c11.big 1100 1024 1099".to_string());
         if thorough {
             // adjacent across the 4096 boundary, far apart across two boundaries, both inside the second chunk
             v.push("c11.big 4098 4095 4096".to_string());
             v.push("c11.big 8200 100 8199".to_string());
             v.push("c11.big 4200 4100 4199".to_string());
-            // a smaller power-of-two boundary
-            v.push("c11.big 1030 0 1024".to_string());
+            // both copies inside the first 1024 tags of a longer input; other powers of two
+            v.push("c11.big 1100 3 1000".to_string());
+            v.push("c11.big 2050 1023 2048".to_string());
+            v.push("c11.big 520 0 512".to_string());
         }
         v
     }
